@@ -27,6 +27,11 @@ PRE = """from __future__ import annotations
 import cohdl
 from cohdl import Bit, BitVector, Unsigned, Signed, Port, Signal, Variable, Temporary, Null, Full, true, false
 from cohdl import std
+from cohdl import vhdl
+
+def drive(target, source):
+    # inline VHDL helper: the target is written (no !r), the source is read (!r)
+    return f"{vhdl:{target} <= {source!r};}"
 
 class Sub(cohdl.Entity):
     i = Port.input(Unsigned[4])
@@ -169,6 +174,17 @@ def cases():
     add("same-origin:concurrent_assign-twice", "reject", ["std.concurrent_assign(s, self.d)", "std.concurrent_assign(s, Unsigned[4](1))"])
     add("same-origin:concurrent_assign-different-targets", "accept", ["std.concurrent_assign(s, self.d)", "std.concurrent_assign(s2, s)"], fn(CON, "c3", "self.o2 <<= s2"))
     add("same-origin:concurrent_eval-twice", "reject", ["std.concurrent_eval(s, lambda: self.d + 1)", "std.concurrent_eval(s, lambda: self.d + 2)"])
+    # --- assignments made by inline VHDL (cohdl.vhdl f-strings), directly and through a helper expanded inside another one ---
+    IL = 'f"{vhdl:{s} <= {self.d!r};}"'
+    ILN = 'f"{vhdl:{drive(s, self.d)}}"'
+    add("inline:assign-only", "accept", fn(CON, "c1", IL))
+    add("inline-nested:assign-only", "accept", fn(CON, "c1", ILN))
+    add("inline+seq", "reject", fn(CON, "c1", IL), fn(SEQ, "p2", "nonlocal s", "s <<= 1"))
+    add("inline-nested+seq", "reject", fn(CON, "c1", ILN), fn(SEQ, "p2", "nonlocal s", "s <<= 1"))
+    add("inline-nested+conc", "reject", fn(CON, "c1", ILN), fn(CON, "c2", "nonlocal s", "s <<= 1"))
+    add("inline-nested+inline", "reject", fn(CON, "c1", ILN), fn(CON, "c2", IL))
+    add("inline:write-input", "reject", fn(CON, "c1", 'f"{vhdl:{self.d} <= {s!r};}"'))
+    add("inline-nested:write-input", "reject", fn(CON, "c1", 'f"{vhdl:{drive(self.d, s)}}"'))
     # --- code hoisted out of a process with cohdl.always: nothing of it may stay behind as a process variable ------------
     add("always:runtime-index-of-vector", "accept", fn(SEQ, "p1", "nonlocal s", "with cohdl.always:", "    self.ob <<= sb[self.d[1:0].unsigned]", "s <<= self.d"), fn(CON, "c2", "sb.next = self.d.bitvector"))
     add("always:runtime-index-of-array", "accept", fn(SEQ, "p1", "mem[0] <<= self.d", "self.o2 <<= cohdl.always(mem[self.d[1:0].unsigned])"))
